@@ -39,7 +39,7 @@ CHECKS = {
          'Constants dict compared with an own evaluator; every program is also rendered with values/registers written literally and must give identical bytes and labels in both compression modes.',
          'trusted: own expression evaluator in vlib/ir.py (Python integer semantics)', '4 C11'),
  'C12': ('exploration', 'Hypothesis-generated IR programs, differential: outcome without -c vs with -c',
-         'Programs biased to RVC operand-set edges with constants / aliases / label-dependent immediates; any program accepted without -c must be accepted with -c. One genuine defect is recorded as a known finding (a distance across an align can grow under -c; narrow signature only_with_c:align_growth, see DESIGN.md section 5); every other -c-only refusal is a violation.',
+         'Programs biased to RVC operand-set edges with constants / aliases / label-dependent immediates; any program accepted without -c must be accepted with -c. One genuine defect is recorded as a known finding (a label-dependent operand that is representable only in the uncompressed layout; narrow signature only_with_c:layout_dependent_operand, see DESIGN.md section 5); every other -c-only refusal is a violation.',
          'generator soundness rules of DESIGN.md 2.2', '4 C12'),
  'C13': ('exploration', 'Hypothesis-generated IR programs rendered in a canonical and in 4 drawn spelling styles (metamorphic)',
          'The listed rewrites are applied independently per line and operand; bytes, label table and outcome class must equal the canonical rendering.',
